@@ -88,7 +88,7 @@ def gen_case(rnd, spec):
         # the pending value may differ from the target's demand when the service starts
         params = {"prestart": rnd.choice([None, None, ["write", rnd.randint(0, 50)], ["outside", rnd.randint(0, 50)]])}
     elif kind == "switch":
-        params = {"slave_interval": rnd.choice([1, 7, 0.5, 10]), "start_demand": rnd.choice([10, 20, 40])}
+        params = {"slave_interval": rnd.choice([1, 7, 0.5, 10]), "start_demand": rnd.choice([10, 20, 40, 29, 31]), "two_slaves": rnd.random() < 0.5}
     return {"kind": kind, "interval": interval, "start": start, "periods": periods, "actions": actions, "params": params, "fractional": fractional, "near": near,
             "default_interval": kind not in ("buffer", "factory") and interval == 1 and rnd.random() < 0.5}
 
@@ -147,7 +147,12 @@ def execute(case, result):
                 steps.append((vt.clock(), itv))
 
         # the slave has an interval of its own: steps must still be sized by the switch's period
-        svc = DemandSwitch(pool, Rec(None), 15, LinearController(None, rate=1, interval=rnd_slave_interval(case)), **kw)
+        slaves = [15, LinearController(None, rate=1, interval=rnd_slave_interval(case))]
+        if case["params"].get("two_slaves"):
+            # a second slave takes over from demand 30: exactly one of them acts per step
+            slaves += [30, LinearController(None, rate=2, interval=rnd_slave_interval(case))]
+            result.count("switch_runs_with_two_slaves")
+        svc = DemandSwitch(pool, Rec(None), *slaves, **kw)
         pool.poke(demand=case["params"].get("start_demand", 10))
     elif kind == "buffer":
         svc = Buffer(pool, window=interval)
@@ -274,8 +279,9 @@ def execute(case, result):
             series = [(start, case["params"].get("start_demand", 10))] + [(e[3], e[2]) for e in pool.log if e[0] == "w"]
             for (ta, da), (tb, db) in zip(series, series[1:]):
                 result.count("switch_slave_steps_checked")
-                if abs(db - da) != interval * 1:
-                    bad("the slave controller stepped by %r, rate x the switch's interval is %r" % (db - da, interval))
+                rate = 2 if case["params"].get("two_slaves") and da >= 30 else 1
+                if abs(db - da) != interval * rate:
+                    bad("the slave controller stepped by %r from demand %r, rate x the switch's interval is %r" % (db - da, da, interval * rate))
                     break
                 if not on_grid(tb, start, interval):
                     bad("the slave controller acted at %r, not on the switch's period" % tb)
@@ -394,7 +400,7 @@ def finish(total, tier):
                                               "buffer_boundaries_checked", "factory_adjustments_checked", "factory_children_spawned",
                                               "factory_needed_adjustments_observed", "switch_slave_steps_checked", "stepwise_step_effects_checked",
                                               "buffer_runs_with_pending_value_at_start", "runs_with_intervals_that_are_not_dyadic", "factory_runs_with_children_only_the_pool_holds",
-                                              "buffer_writes_of_nearly_equal_values"]
+                                              "buffer_writes_of_nearly_equal_values", "switch_runs_with_two_slaves"]
     for name in need:
         if not total.counters.get(name) and not total.violations:
             total.inconc("monitor never observed: " + name)
